@@ -148,6 +148,14 @@ def translate():
     if [tuple(x) for x in order] != want:
         fails.append("h2.rs: check_flood no longer tests the ten counters in the modelled order: %s" % (order,))
     fails += flood_sites(hs)
+    # the ACK variants are not counted: they leave the handler before the bump (model: `qualifying` = None)
+    if not re.search(r"fn handle_ping_frame\(&mut self, ping: parser::Ping\) -> MuxResult \{\s*if ping\.ack \{\s*self\.attribute_bytes_to_overhead\(\);\s*return MuxResult::Continue;\s*\}", hs):
+        fails.append("h2.rs: handle_ping_frame no longer starts by leaving on a PING ACK (model: only a PING without ACK is counted)")
+    if not re.search(r"if settings\.ack \{.{0,2500}?return MuxResult::Continue;\s*\}\s*// CVE-2019-9515: track SETTINGS frame rate\s*let settings_count_before", hs, re.S):
+        fails.append("h2.rs: handle_settings_frame no longer leaves on a SETTINGS ACK right before the count (model: only SETTINGS without ACK are counted)")
+    # every CONTINUATION of a header block is counted, whatever its length
+    if not re.search(r"let cont_count_before = self\.flood_detector\.continuation_count;\s*let acc_size_before = self\.flood_detector\.accumulated_header_size;\s*self\.flood_detector\.continuation_count \+= 1;\s*self\.flood_detector\.accumulated_header_size = self\s*\.flood_detector\s*\.accumulated_header_size\s*\.saturating_add\(payload_len\);", hs):
+        fails.append("h2.rs: handle_continuation_header_state no longer counts every CONTINUATION frame by one (and its payload into the accumulated size)")
     # census: in handle_header_state every refusal of a new stream raises highest_peer_stream_id first
     try:
         body = _fn_body(hs, "fn handle_header_state<L>")
@@ -200,6 +208,37 @@ FLOOD_SITES = {
 }
 
 
+# conditions (normalised `if` heads) under which each windowed counter is bumped in its handler; the early
+# `return` of the ACK branches is pinned separately below
+FLOOD_GUARDS = {
+    "rst_stream_count": [],
+    "ping_count": [],
+    "settings_count": [],
+    "empty_data_count": ["if data.payload.is_empty() && !data.end_stream {"],
+    "window_update_stream0_count": ["if stream_id == 0 {"],
+    "continuation_count": None,   # inside the `match parser::frame_header(..)` arm: shape pinned by regex below
+}
+
+
+def _enclosing_guards(lines, fn_at, i):
+    """heads of the `if` blocks that enclose line i, within its function"""
+    fn = fn_at[i]
+    start = i
+    while start > 0 and fn_at[start - 1] == fn:
+        start -= 1
+    stack = []
+    for j in range(start, i):
+        ln = lines[j]
+        code = ln.split("//")[0]
+        for ch_i, ch in enumerate(code):
+            if ch == "{":
+                stack.append(code.strip() if code.strip().startswith(("if ", "} else if ", "else if ")) else None)
+            elif ch == "}":
+                if stack:
+                    stack.pop()
+    return [g for g in stack if g]
+
+
 def flood_sites(hs):
     fails = []
     code = hs.split("\n#[cfg(test)]\nmod tests")[0]
@@ -234,6 +273,18 @@ def flood_sites(hs):
                 break
         if not ok:
             fails.append("h2.rs:%d: %s is bumped in %s but check_flood does not follow the bump" % (i + 1, field, fn))
+        # what decides whether the frame is counted: the conditions of the blocks enclosing the bump, back to
+        # the start of the function.  Model (`qualifying`): type, flags, stream id -- never the payload length,
+        # except for the empty-DATA counter, which is about exactly that.
+        guards = _enclosing_guards(lines, fn_at, i)
+        want = FLOOD_GUARDS.get(field)
+        if want is not None and fn in (f for (c, f) in FLOOD_SITES if c == field):
+            sized = [g for g in guards if re.search(r"payload_len|\.len\(\)|is_empty\(\)|payload\b", g)]
+            if field != "empty_data_count" and sized:
+                fails.append("h2.rs:%d: %s is only bumped when %s: the count depends on the payload size (model: every such frame counts)" % (i + 1, field, " / ".join(sized)))
+            norm = [re.sub(r"\s+", " ", g) for g in guards]
+            if sorted(norm) != sorted(want):
+                fails.append("h2.rs:%d: %s is bumped under the conditions %r, the model's `qualifying` says %r" % (i + 1, field, norm, want))
         seen[(field, fn)] = seen.get((field, fn), 0) + 1
     for k, n in FLOOD_SITES.items():
         if seen.get(k, 0) < n:
